@@ -188,8 +188,13 @@ namespace sim
 			, out_request.data(), out_request.size());
 		m_num_server_out_bytes += int(out_request.size());
 
+		// sent by on_connected(), together with the request that started the
+		// lookup or connect
+		if (m_connecting) return;
+
 		if (!m_server_connection.is_open())
 		{
+			m_connecting = true;
 			boost::system::error_code err;
 			tcp::endpoint target(make_address(host.c_str(), err)
 				, static_cast<unsigned short>(port));
@@ -216,6 +221,7 @@ namespace sim
 	{
 		if (ec || ips.empty())
 		{
+			m_connecting = false;
 			if (ec)
 			{
 				std::printf("http_proxy::on_domain_lookup: (%d) %s\n"
@@ -252,6 +258,8 @@ namespace sim
 
 	void http_proxy::on_connected(boost::system::error_code const& ec)
 	{
+		m_connecting = false;
+
 		if (ec)
 		{
 			std::printf("http_proxy::on_connected() connection failed: %s\n", ec.message().c_str());
@@ -340,6 +348,7 @@ namespace sim
 		m_num_client_in_bytes = 0;
 		m_num_server_out_bytes = 0;
 		m_num_in_bytes = 0;
+		m_connecting = false;
 
 		error_code err;
 		m_client_connection.close(err);
